@@ -469,7 +469,9 @@ func init() {
 		if rng.Intn(4) == 0 {
 			o["ignore"] = []int{1 + rng.Intn(nt)}
 		}
-		return map[string]interface{}{"id": "randud-" + itoa(i), "ref": symList(ref), "queries": qs, "targets": ts, "opts": o, "combos": true}
+		return map[string]interface{}{"id": "randud-" + itoa(i), "ref": symList(ref), "queries": qs, "targets": ts, "opts": o, "combos": true,
+			"lowq": rng.Intn(5) == 0, "lowt": rng.Intn(5) == 0, "wrapr": []int{0, 0, 7}[rng.Intn(3)], "wrapq": []int{0, 0, 5, 60}[rng.Intn(4)],
+			"wrapt": []int{0, 0, 4, 9, 60}[rng.Intn(5)], "crlfq": rng.Intn(6) == 0, "crlft": rng.Intn(6) == 0}
 	}
 }
 
@@ -667,6 +669,7 @@ func init() {
 			run("samvar", "gb", true, -1, -1, false, 0, 2), run("topa-variants", "gb", true, -1, -1, false, 0, 1), run("samvar", "gff", true, -1, -1, false, 0, 1),
 			run("variants", "gb", true, ws, we, false, 0, 1), run("variants", "gb", true, ws, -1, false, 0, 1), run("samvar", "gb", true, -1, we, false, 0, 1),
 			run("variants", "gb", true, -1, -1, true, []int{0, 100, 250, 500}[rng.Intn(4)], 2)}
-		return map[string]interface{}{"id": "randvar-" + itoa(i), "kind": "anno", "R": symList(R), "qs": qs, "feats": feats, "runs": runs}
+		return map[string]interface{}{"id": "randvar-" + itoa(i), "kind": "anno", "R": symList(R), "qs": qs, "feats": feats, "runs": runs,
+			"wrap": []int{0, 0, 7, 60}[rng.Intn(4)], "crlf": rng.Intn(5) == 0, "lowq": rng.Intn(4) == 0}
 	}
 }
